@@ -1,17 +1,603 @@
 package dsmr
 
+// C35: accepting a DSMR block yields exactly the chunks its certificates
+// reference, in certificate order, whether local or fetched from a peer, and
+// acceptance succeeds once a peer serves a valid chunk.
+
 import (
+	"context"
+	"encoding/json"
+	"fmt"
+	"math/rand/v2"
+	"strings"
+	"sync"
 	"testing"
+	"time"
+
+	"github.com/ava-labs/avalanchego/ids"
+	"github.com/ava-labs/avalanchego/network/p2p"
+	"github.com/ava-labs/avalanchego/snow/engine/common"
+	"google.golang.org/protobuf/proto"
 
 	kit "github.com/ava-labs/hypersdk/internal/verifkit"
+	pb "github.com/ava-labs/hypersdk/proto/pb/dsmr"
+	"github.com/ava-labs/hypersdk/x/dsmr/dsmrtest"
 )
+
+const c35HardCap = 400 // GetChunk requests per Accept after which the monitor gives up on it
+
+// ---- case description (JSON witness) ----
+
+type c35Chunk struct {
+	Producer int   `json:"producer"`
+	Holders  []int `json:"holders"` // nodes that store the chunk before the block is proposed
+}
+
+type c35Block struct {
+	Chunks  []c35Chunk `json:"chunks"`  // certificate order
+	Order   []int      `json:"order"`   // order in which the nodes accept the block
+	Scripts [][]string `json:"scripts"` // per node: behaviour of the next GetChunk responses during its Accept (then honest)
+}
+
+type c35Case struct {
+	K      int        `json:"k"`
+	Blocks []c35Block `json:"blocks"`
+}
+
+var c35Faults = []string{"apperr", "unavail", "garbage", "empty", "truncated", "badsig", "tampered", "wrong:other", "wrong:sibling"}
+
+// ---- deterministic chunk universe, cached across cases ----
+
+type c35Item struct {
+	chunk Chunk[dsmrtest.Tx]
+	cert  *ChunkCertificate
+}
+
+var (
+	c35Nets  sync.Map // k -> *vfNet
+	c35Items sync.Map // "k/producer/tag" -> *c35Item
+)
+
+func c35Net(k int) (*vfNet, error) {
+	if v, ok := c35Nets.Load(k); ok {
+		return v.(*vfNet), nil
+	}
+	n, err := vfNewNet(k)
+	if err != nil {
+		return nil, err
+	}
+	v, _ := c35Nets.LoadOrStore(k, n)
+	return v.(*vfNet), nil
+}
+
+func c35GetItem(net *vfNet, k, producer, tag int) (*c35Item, error) {
+	key := fmt.Sprintf("%d/%d/%d", k, producer, tag)
+	if v, ok := c35Items.Load(key); ok {
+		return v.(*c35Item), nil
+	}
+	expiry := int64(1000 + tag)
+	txs := make([]dsmrtest.Tx, 1+tag%3)
+	for i := range txs {
+		txs[i] = vfTx(uint64(tag*8+i), expiry)
+	}
+	c, err := net.signChunk(producer, expiry, txs)
+	if err != nil {
+		return nil, err
+	}
+	cert, err := net.certFor(c)
+	if err != nil {
+		return nil, err
+	}
+	v, _ := c35Items.LoadOrStore(key, &c35Item{chunk: c, cert: cert})
+	return v.(*c35Item), nil
+}
+
+// ---- fault-injecting GetChunk handlers ----
+
+type c35Event struct {
+	N      int    `json:"n"`
+	Peer   int    `json:"peer"`
+	Chunk  string `json:"chunk"` // position in the block or "?"
+	Action string `json:"action"`
+	Result string `json:"result"`
+}
+
+type c35Ctl struct {
+	mu       sync.Mutex
+	script   []string
+	pos      int
+	n        int
+	events   []c35Event
+	expected map[ids.ID][]byte // chunk id -> canonical bytes (every chunk of the case)
+	blockPos map[ids.ID]int    // chunk id -> position in the current block
+	sibling  map[ids.ID][]byte // chunk id -> bytes of another chunk of the same block
+	other    []byte            // a valid chunk that is in no block
+	valid    map[ids.ID]int    // valid serves of the requested chunk during this Accept
+	refetch  int               // requests for a chunk after a valid copy of it was served
+	faults   map[string]int
+	unavail  int
+	stuck    chan struct{}
+	stuckOn  ids.ID
+	never    chan struct{}
+}
+
+func (c *c35Ctl) begin(script []string, blockPos map[ids.ID]int, sibling map[ids.ID][]byte) {
+	c.mu.Lock()
+	defer c.mu.Unlock()
+	c.script, c.pos, c.n, c.events = script, 0, 0, nil
+	c.blockPos, c.sibling = blockPos, sibling
+	c.valid = map[ids.ID]int{}
+	c.refetch = 0
+}
+
+type c35Handler struct {
+	ctl   *c35Ctl
+	peer  int
+	inner p2p.Handler
+}
+
+func (h *c35Handler) AppGossip(ctx context.Context, nodeID ids.NodeID, b []byte) {
+	h.inner.AppGossip(ctx, nodeID, b)
+}
+
+func c35Resp(chunkBytes []byte) []byte {
+	b, _ := proto.Marshal(&pb.GetChunkResponse{Chunk: chunkBytes})
+	return b
+}
+
+func (h *c35Handler) AppRequest(ctx context.Context, nodeID ids.NodeID, deadline time.Time, req []byte) ([]byte, *common.AppError) {
+	c := h.ctl
+	var id ids.ID
+	known := false
+	r := pb.GetChunkRequest{}
+	if err := proto.Unmarshal(req, &r); err == nil {
+		if x, err := ids.ToID(r.ChunkId); err == nil {
+			id = x
+			_, known = c.expected[id]
+		}
+	}
+	c.mu.Lock()
+	c.n++
+	n := c.n
+	if n > c35HardCap {
+		c.stuckOn = id
+		select {
+		case c.stuck <- struct{}{}:
+		default:
+		}
+		c.mu.Unlock()
+		<-c.never // park this request for ever; the driver abandons the Accept
+		return nil, common.ErrTimeout
+	}
+	action := "ok"
+	if c.pos < len(c.script) {
+		action = c.script[c.pos]
+		c.pos++
+	}
+	if !known {
+		action = "ok"
+	}
+	if action == "wrong:sibling" && c.sibling[id] == nil {
+		action = "wrong:other"
+	}
+	if c.valid[id] > 0 {
+		c.refetch++
+	}
+	pos := "?"
+	if p, ok := c.blockPos[id]; ok {
+		pos = fmt.Sprint(p)
+	}
+	ev := c35Event{N: n, Peer: h.peer, Chunk: pos, Action: action}
+	right := c.expected[id]
+	sib := c.sibling[id]
+	c.mu.Unlock()
+
+	var resp []byte
+	var appErr *common.AppError
+	switch action {
+	case "apperr":
+		appErr = &common.AppError{Code: 77, Message: "scripted failure"}
+	case "unavail":
+		appErr = ErrChunkNotAvailable
+	case "garbage":
+		resp = []byte{0xff, 0xff, 0xff, 0x07, 0x01}
+	case "empty":
+		resp = c35Resp(nil)
+	case "truncated":
+		resp = c35Resp(right[:len(right)/2])
+	case "badsig":
+		b := append([]byte(nil), right...)
+		b[len(b)-1] ^= 0x01
+		resp = c35Resp(b)
+	case "tampered":
+		b := append([]byte(nil), right...)
+		b[len(b)/3] ^= 0x40 // inside the unsigned part: the producer's signature no longer matches
+		resp = c35Resp(b)
+	case "wrong:other":
+		resp = c35Resp(c.other)
+	case "wrong:sibling":
+		resp = c35Resp(sib)
+	default:
+		resp, appErr = h.inner.AppRequest(ctx, nodeID, deadline, req)
+	}
+	c.mu.Lock()
+	switch {
+	case action != "ok":
+		c.faults[action]++
+		ev.Result = "fault"
+	case appErr != nil:
+		c.unavail++
+		ev.Result = "honest peer: " + appErr.Message
+	default:
+		got := pb.GetChunkResponse{}
+		if err := proto.Unmarshal(resp, &got); err == nil && known && string(got.Chunk) == string(right) {
+			c.valid[id]++
+			ev.Result = "valid chunk served"
+		} else {
+			ev.Result = "honest peer served unexpected bytes"
+		}
+	}
+	c.events = append(c.events, ev)
+	c.mu.Unlock()
+	return resp, appErr
+}
+
+// ---- running one case ----
+
+type c35Fail struct {
+	Key    string
+	Detail string
+	W      any
+}
+
+type c35Stats struct {
+	accepts, allLocal, withFetch, fetched, requests, valid, unavail, refetch int
+	faults                                                                   map[string]int
+	shapes                                                                   []string
+	inconclusive                                                             string
+}
+
+func runC35(t *testing.T, c c35Case) (st c35Stats, fails []c35Fail) {
+	st.faults = map[string]int{}
+	ctx := context.Background()
+	net, err := c35Net(c.K)
+	if err != nil {
+		st.inconclusive = "net: " + err.Error()
+		return
+	}
+	ctl := &c35Ctl{
+		expected: map[ids.ID][]byte{},
+		faults:   map[string]int{},
+		stuck:    make(chan struct{}, 1),
+		never:    make(chan struct{}),
+	}
+	nodes, err := vfNewNodes(t, net, vfNodeOpts{
+		rules: testRuleFactory,
+		wrapGetChunk: func(_, peer int, h p2p.Handler) p2p.Handler {
+			return &c35Handler{ctl: ctl, peer: peer, inner: h}
+		},
+	})
+	if err != nil {
+		st.inconclusive = "nodes: " + err.Error()
+		return
+	}
+	other, err := c35GetItem(net, c.K, 0, 99)
+	if err != nil {
+		st.inconclusive = "chunk: " + err.Error()
+		return
+	}
+	ctl.other = other.chunk.bytes
+	ctl.expected[other.chunk.id] = other.chunk.bytes
+	defer func() {
+		ctl.mu.Lock()
+		for k, v := range ctl.faults {
+			st.faults[k] += v
+		}
+		st.unavail += ctl.unavail
+		ctl.mu.Unlock()
+	}()
+
+	parent := Block{}
+	for bi, b := range c.Blocks {
+		items := make([]*c35Item, len(b.Chunks))
+		certs := make([]*ChunkCertificate, len(b.Chunks))
+		blockPos := map[ids.ID]int{}
+		sibling := map[ids.ID][]byte{}
+		for ci, ch := range b.Chunks {
+			it, err := c35GetItem(net, c.K, ch.Producer, bi*8+ci)
+			if err != nil {
+				st.inconclusive = "chunk: " + err.Error()
+				return
+			}
+			items[ci], certs[ci] = it, it.cert
+			blockPos[it.chunk.id] = ci
+			ctl.mu.Lock()
+			ctl.expected[it.chunk.id] = it.chunk.bytes
+			ctl.mu.Unlock()
+			for _, h := range ch.Holders {
+				if err := nodes[h].st.AddLocalChunkWithCert(it.chunk, it.cert); err != nil {
+					st.inconclusive = "add chunk: " + err.Error()
+					return
+				}
+			}
+		}
+		if len(items) > 1 {
+			for ci, it := range items {
+				sibling[it.chunk.id] = items[(ci+1)%len(items)].chunk.bytes
+			}
+		}
+		blk, err := vfMakeBlock(parent, int64(bi+1), certs)
+		if err != nil {
+			st.inconclusive = "block: " + err.Error()
+			return
+		}
+		for _, ni := range b.Order {
+			node := nodes[ni]
+			if err := node.Verify(ctx, node.LastAccepted, blk); err != nil {
+				st.inconclusive = fmt.Sprintf("block %d does not verify on node %d: %v", bi, ni, err)
+				return
+			}
+			local := make([]bool, len(items))
+			nRemote := 0
+			var pat strings.Builder
+			for ci, it := range items {
+				_, err := node.st.GetChunkBytes(it.chunk.Expiry, it.chunk.id)
+				local[ci] = err == nil
+				if local[ci] {
+					pat.WriteByte('L')
+				} else {
+					nRemote++
+					holders := 0
+					for oj, on := range nodes {
+						if oj == ni {
+							continue
+						}
+						if _, err := on.st.GetChunkBytes(it.chunk.Expiry, it.chunk.id); err == nil {
+							holders++
+						}
+					}
+					if holders == 0 {
+						st.inconclusive = fmt.Sprintf("harness: chunk %d of block %d is held by no node", ci, bi)
+						return
+					}
+					fmt.Fprintf(&pat, "R%d", holders)
+				}
+			}
+			script := []string(nil)
+			if ni < len(b.Scripts) {
+				script = b.Scripts[ni]
+			}
+			ctl.begin(script, blockPos, sibling)
+			var eb ExecutedBlock[dsmrtest.Tx]
+			var accErr error
+			var panicked any
+			done := kit.Go(func() {
+				defer func() { panicked = recover() }()
+				eb, accErr = node.Accept(ctx, blk)
+			})
+			st.accepts++
+			wit := func() map[string]any {
+				ctl.mu.Lock()
+				defer ctl.mu.Unlock()
+				ev := append([]c35Event(nil), ctl.events...)
+				if len(ev) > 40 {
+					ev = ev[len(ev)-40:]
+				}
+				return map[string]any{"case": c, "block": bi, "node": ni, "chunks_local_or_remote": pat.String(), "script": script, "last_requests": ev}
+			}
+			select {
+			case <-done:
+			case <-ctl.stuck:
+				ctl.mu.Lock()
+				v := ctl.valid[ctl.stuckOn]
+				ctl.mu.Unlock()
+				if v > 0 {
+					fails = append(fails, c35Fail{"C35/accept-never-completes-after-valid-chunk", fmt.Sprintf("block %d node %d (%s): Accept issued more than %d GetChunk requests although a valid copy of the requested chunk was served %d times", bi, ni, pat.String(), c35HardCap, v), wit()})
+				} else {
+					st.inconclusive = fmt.Sprintf("block %d node %d: %d requests without any valid serve (harness)", bi, ni, c35HardCap)
+				}
+				return
+			}
+			ctl.mu.Lock()
+			served := 0
+			for _, v := range ctl.valid {
+				served += v
+			}
+			wrongServed := 0
+			for _, e := range ctl.events {
+				if strings.HasPrefix(e.Action, "wrong:") {
+					wrongServed++
+				}
+			}
+			reqs, refetch := ctl.n, ctl.refetch
+			ctl.mu.Unlock()
+			st.requests += reqs
+			st.valid += served
+			st.refetch += refetch
+			if nRemote == 0 {
+				st.allLocal++
+			} else {
+				st.withFetch++
+				st.fetched += nRemote
+				st.shapes = append(st.shapes, fmt.Sprintf("k%d b%d %s %v", c.K, bi, pat.String(), script))
+			}
+			where := fmt.Sprintf("block %d node %d chunks %s script %v", bi, ni, pat.String(), script)
+			if panicked != nil {
+				fails = append(fails, c35Fail{"C35/accept-panics", fmt.Sprintf("%s: Accept panicked: %v", where, panicked), wit()})
+				return
+			}
+			if accErr != nil {
+				switch {
+				case nRemote == 0:
+					fails = append(fails, c35Fail{"C35/accept-fails-with-local-chunks", fmt.Sprintf("%s: %v", where, accErr), wit()})
+				case served > 0:
+					fails = append(fails, c35Fail{"C35/accept-fails-after-valid-chunk-fetched", fmt.Sprintf("%s: peers served %d valid chunk(s) for the %d missing one(s) but Accept returned: %v", where, served, nRemote, accErr), wit()})
+				case wrongServed > 0:
+					fails = append(fails, c35Fail{"C35/accept-fails-after-wrong-chunk", fmt.Sprintf("%s: a peer answered with a different (valid) chunk, Accept stopped asking and returned: %v", where, accErr), wit()})
+				default:
+					fails = append(fails, c35Fail{"C35/accept-gives-up-before-valid-chunk", fmt.Sprintf("%s: Accept returned %v after %d valid serves for %d missing chunks", where, accErr, served, nRemote), wit()})
+				}
+				return
+			}
+			// executed chunks = the certificates' chunks, in order, no extras
+			bad := ""
+			if len(eb.Chunks) != len(items) {
+				bad = fmt.Sprintf("%d executed chunks for %d certificates", len(eb.Chunks), len(items))
+			}
+			for ci := 0; bad == "" && ci < len(items); ci++ {
+				got := eb.Chunks[ci]
+				if got.id != items[ci].chunk.id || string(got.bytes) != string(items[ci].chunk.bytes) {
+					at := -1
+					for cj := range items {
+						if got.id == items[cj].chunk.id {
+							at = cj
+						}
+					}
+					switch {
+					case at >= 0:
+						bad = fmt.Sprintf("position %d holds the chunk of certificate %d", ci, at)
+					case got.id == other.chunk.id:
+						bad = fmt.Sprintf("position %d holds a chunk that no certificate references (the one a peer sent instead)", ci)
+					default:
+						bad = fmt.Sprintf("position %d holds chunk %s, certificate references %s", ci, got.id, items[ci].chunk.id)
+					}
+				}
+			}
+			if bad != "" {
+				key := "C35/executed-chunks-mismatch"
+				if wrongServed > 0 {
+					key = "C35/wrong-chunk-from-peer-executed"
+				}
+				fails = append(fails, c35Fail{key, fmt.Sprintf("%s: %s", where, bad), wit()})
+				return
+			}
+			if refetch > 0 {
+				fails = append(fails, c35Fail{"C35/refetch-after-valid-chunk-served", fmt.Sprintf("%s: %d GetChunk requests for a chunk of which a valid copy had already been served", where, refetch), wit()})
+				return
+			}
+		}
+		parent = blk
+	}
+	return
+}
+
+// ---- generator ----
+
+func c35Gen(rng *rand.Rand) c35Case {
+	c := c35Case{K: 2 + rng.IntN(4)}
+	if rng.IntN(3) == 0 {
+		c.K = 2 + rng.IntN(2)
+	}
+	nb := 1 + rng.IntN(3)
+	for bi := 0; bi < nb; bi++ {
+		b := c35Block{}
+		nc := 1 + rng.IntN(4)
+		for ci := 0; ci < nc; ci++ {
+			ch := c35Chunk{Producer: rng.IntN(c.K)}
+			nh := 1
+			switch rng.IntN(6) {
+			case 0:
+				nh = c.K
+			case 1, 2:
+				nh = 1 + rng.IntN(c.K)
+			}
+			perm := rng.Perm(c.K)
+			ch.Holders = append(ch.Holders, perm[:nh]...)
+			b.Chunks = append(b.Chunks, ch)
+		}
+		b.Order = rng.Perm(c.K)
+		b.Scripts = make([][]string, c.K)
+		for ni := 0; ni < c.K; ni++ {
+			ln := 0
+			switch rng.IntN(5) {
+			case 0:
+			case 1, 2:
+				ln = 1 + rng.IntN(2)
+			default:
+				ln = 1 + rng.IntN(5)
+			}
+			for s := 0; s < ln; s++ {
+				b.Scripts[ni] = append(b.Scripts[ni], c35Faults[rng.IntN(len(c35Faults))])
+			}
+		}
+		c.Blocks = append(c.Blocks, b)
+	}
+	return c
+}
 
 func TestC35(t *testing.T) {
 	r := kit.Start(t, "C35", "fault_enumeration")
-	r.Rule("placeholder")
-	r.Eval()
-	r.Distinct("a")
-	r.Distinct("b")
-	r.Sample("x")
-	r.Finish(2)
+	r.Rule("cases = 2..5 real dsmr nodes (real ChunkStorage, ChunkVerifier, GetChunk handlers and p2p clients; deterministic validator keys), chains of 1..3 blocks of 1..4 certificates whose chunks are stored by a chosen subset of nodes; every node verifies and accepts every block in a random order, so that each chunk is local for some acceptors and must be fetched by others (from peers that hold it as pending or already accepted). Every GetChunk handler is wrapped: the next 0..5 responses during an Accept follow a script over {app error, not-available, garbage bytes, empty chunk, truncated chunk, corrupted signature, tampered body, another valid chunk, another chunk of the same block}, afterwards peers answer honestly (the request target is chosen at random by the code under test). Judged per Accept: it returns without error, ExecutedBlock.Chunks are byte-for-byte the certificates' chunks in certificate order with nothing extra, and no further request is sent for a chunk once a valid copy was served. One evaluation = one Accept; non-trivial = at least one chunk had to be fetched; distinct = (nodes, block index, local/remote pattern with holder counts, fault script).")
+	r.Assume(
+		"certificates are forged with all validator keys and chunks are placed with AddLocalChunkWithCert (the BuildChunk signature round would store the chunk on every signer); the Accept path under test is the same",
+		"chunk expiries lie inside every node's validity window, so a valid chunk is admissible on every node",
+		fmt.Sprintf("an Accept that issues more than %d requests although valid copies were served is reported as never completing (the handler parks; no wall-clock verdict)", c35HardCap),
+	)
+	total := c35Stats{faults: map[string]int{}}
+	var mu sync.Mutex
+	judge := func(c c35Case) {
+		var st c35Stats
+		var fails []c35Fail
+		r.Guard("Accept", c, func() { st, fails = runC35(t, c) })
+		r.EvalN(st.accepts)
+		mu.Lock()
+		total.accepts += st.accepts
+		total.allLocal += st.allLocal
+		total.withFetch += st.withFetch
+		total.fetched += st.fetched
+		total.requests += st.requests
+		total.valid += st.valid
+		total.unavail += st.unavail
+		total.refetch += st.refetch
+		for k, v := range st.faults {
+			total.faults[k] += v
+		}
+		mu.Unlock()
+		for _, s := range st.shapes {
+			r.Distinct(s)
+		}
+		if len(st.shapes) > 0 {
+			r.Sample(c)
+		}
+		if st.inconclusive != "" {
+			r.Inconclusive("%s", st.inconclusive)
+		}
+		for _, f := range fails {
+			r.Violation(f.Key, f.W, "%s", f.Detail)
+		}
+	}
+	finish := func(min int) {
+		r.Count("accepts", total.accepts)
+		r.Count("accepts_all_chunks_local", total.allLocal)
+		r.Count("accepts_with_remote_fetch", total.withFetch)
+		r.Count("chunks_fetched_remotely", total.fetched)
+		r.Count("getchunk_requests", total.requests)
+		r.Count("valid_chunks_served", total.valid)
+		r.Count("honest_peer_without_chunk", total.unavail)
+		r.Count("requests_after_valid_serve", total.refetch)
+		for k, v := range total.faults {
+			r.Count("fault_"+k, v)
+		}
+		r.Finish(min)
+	}
+	if rf := r.Replay(); rf != nil && len(rf.Witness) > 0 {
+		var w struct {
+			Case c35Case `json:"case"`
+		}
+		if err := json.Unmarshal(rf.Witness, &w); err == nil && w.Case.K > 0 {
+			judge(w.Case)
+			finish(0)
+			return
+		}
+	}
+	rng := r.Rand("cases")
+	n := r.N(1200, 24000)
+	cases := make([]c35Case, n)
+	for i := range cases {
+		cases[i] = c35Gen(rng)
+	}
+	vfParallel(n, 4, func(i int) {
+		judge(cases[i])
+	})
+	finish(300)
 }
